@@ -5,6 +5,7 @@ from .rules import countflow as cf
 from .rules import loops as lp
 from .rules import batch as bt
 from .rules import globalstate as gs
+from .rules import interrupt as it
 
 NOT_BEHAVIOUR = 'decides the listed structural clauses (necessary conditions); does not decide the behaviour itself'
 
@@ -46,6 +47,16 @@ prop('C20',
       'no other process-global writer (R48)', 'per-election objects; shared profile never mutated (R49)'],
      ['byte equality of two records (a statement about two runs)',
       'callers that reuse one Options object across elections (outside the property\'s protocol)'])
+prop('C19',
+     [('R43', it.r43_key_typestate), ('R44', it.r44_append_only), ('R45', it.r45_nothing_swallows),
+      ('R46', it.r46_interrupt_plumbing)],
+     'Static analysis of /repo source: the renderers never subscript a record key that may not be stored yet '
+     '(typestate of the lazily filled header); the action list is append-only and an action is appended complete, so '
+     'what is rendered is a prefix; no handler in the package can swallow a KeyboardInterrupt; the driver catches it '
+     'around the count and passes the flag to report, dump and json, which log the marker once. ' + NOT_BEHAVIOUR,
+     ['renderers load only keys that are certainly stored (R43)', 'append-only, append-last action list (R44)',
+      'nothing swallows the interrupt (R45)', 'driver plumbing of the interrupt flag (R46)'],
+     ['determinism of the count (needed for "prefix of THE uninterrupted record"): see C20'])
 
 LEVEL_TEXT = ('Static analysis of the source of /repo (never executed): obligations are enumerated from the '
               'repository\'s own entities (rule classes, call sites, stores, loops, class attributes) and each is '
